@@ -597,4 +597,162 @@ Proof.
   split; [exact H3|]. apply IH; auto.
 Qed.
 
+(* ================= failed writes and two handles ================= *)
+
+Lemma pair_dec (x y : bytes * bytes) : {x = y} + {x <> y}.
+Proof. destruct x as [a b], y as [c d]. apply key_dec. Qed.
+
+Lemma incl_firstn {T} k (l : list T) : incl (firstn k l) l.
+Proof.
+  unfold incl. revert l; induction k as [|k IH]; intros [|x l] a Hin; cbn in *; try contradiction.
+  destruct Hin as [E|Hin]; [left; exact E|right; apply IH; exact Hin].
+Qed.
+
+(* the cache after marking a list of keys *)
+Lemma marks_get keys : forall c, Forall K keys -> sorted c ->
+  sorted (fold_left (mark_unknown true) keys c) /\
+  forall pk cc, K (pk, cc) ->
+    (In (pk, cc) keys -> cacheable_key pk cc = true -> c_get (fold_left (mark_unknown true) keys c) pk cc = Some CBig) /\
+    (~ In (pk, cc) keys \/ cacheable_key pk cc = false -> c_get (fold_left (mark_unknown true) keys c) pk cc = c_get c pk cc).
+Proof.
+  induction keys as [|[kp kc] r IH]; intros c HK Hs; cbn [fold_left].
+  - split; [exact Hs|]. intros pk cc _. split; [intros []|reflexivity].
+  - inversion HK as [|? ? Hk Hr]; subst.
+    assert (Hc1 : (cacheable_key kp kc = true /\ mark_unknown true c (kp, kc) = c_set c kp kc CBig) \/
+                  (cacheable_key kp kc = false /\ mark_unknown true c (kp, kc) = c)).
+    { unfold mark_unknown, key_skipped. cbn [fst snd andb]. destruct (cacheable_key kp kc) eqn:Ck; cbn [negb]; [left|right; auto].
+      split; auto. unfold fc_set. pose proof (cacheable_fits kp kc Ck) as F. unfold key_fits in F. rewrite F. reflexivity. }
+    assert (Hs1 : sorted (mark_unknown true c (kp, kc))).
+    { destruct Hc1 as [[_ E]|[_ E]]; rewrite E; [apply sm_put_sorted|]; exact Hs. }
+    destruct (IH _ Hr Hs1) as [Hs' Hg]. split; [exact Hs'|].
+    intros pk cc HKk. destruct (Hg pk cc HKk) as [Hg1 Hg2]. split.
+    + intros Hin Ck. destruct (in_dec pair_dec (pk, cc) r) as [Hi|Hn]; [apply Hg1; assumption|].
+      destruct Hin as [E|Hi]; [|contradiction]. inversion E; subst kp kc.
+      rewrite Hg2 by (left; exact Hn). destruct Hc1 as [[_ E1]|[Cu _]]; [|congruence].
+      rewrite E1. apply c_get_set_same.
+    + intros Hcase. rewrite Hg2.
+      * destruct Hc1 as [[Ck E1]|[_ E1]]; rewrite E1; [|reflexivity].
+        apply c_get_set_other; auto. intros E. inversion E; subst pk cc.
+        destruct Hcase as [Hn|Cu]; [apply Hn; left; reflexivity|congruence].
+      * destruct Hcase as [Hn|Cu]; [left; intros Hi; apply Hn; right; exact Hi|right; exact Cu].
+Qed.
+
+(* the storage changed at most under the marked keys *)
+Lemma CI_mark_all st st' now c keys : CI (mkC (st, now) c now) -> Forall K keys -> parts_sorted st' ->
+  (forall pk' cc', ~ In (pk', cc') keys -> raw_lookup st' pk' cc' = raw_lookup st pk' cc') ->
+  CI (mkC (st', now) (fold_left (mark_unknown true) keys c) now).
+Proof.
+  intros [Hn He Hu Hs Hc] HK Hs' Hfr. cbn [c_now c_under c_cache fst snd] in *.
+  destruct (marks_get keys c HK Hc) as [Hcs Hg].
+  constructor; cbn [c_now c_under c_cache fst snd]; auto.
+  - intros pk cc HKk. destruct (Hg pk cc HKk) as [Hg1 Hg2].
+    destruct (in_dec pair_dec (pk, cc) keys) as [Hi|Hn'].
+    + destruct (cacheable_key pk cc) eqn:Ck.
+      * rewrite (Hg1 Hi eq_refl). exact I.
+      * rewrite (Hg2 (or_intror eq_refl)). rewrite (Hu pk cc HKk Ck). cbn [entry_ok]. congruence.
+    + rewrite (Hg2 (or_introl Hn')). eapply entry_ok_congr; [|apply He; assumption]. apply Hfr. exact Hn'.
+  - intros pk cc HKk Cu. destruct (Hg pk cc HKk) as [_ Hg2]. rewrite (Hg2 (or_intror Cu)). apply Hu; assumption.
+Qed.
+
+Lemma raw_put_batch_other items : forall (st : store bytes) pk cc, ~ In (pk, cc) (map fst items) ->
+  raw_lookup (put_batch st items) pk cc = raw_lookup st pk cc.
+Proof.
+  unfold put_batch. induction items as [|[[p c] v] items IH]; intros st pk cc Hn; cbn [fold_left map fst snd] in *; [reflexivity|].
+  rewrite IH by (intros Hi; apply Hn; right; exact Hi).
+  unfold put. apply raw_set_other. intros E. apply Hn. left. symmetry. exact E.
+Qed.
+
+(* a write of the reference storage keeps the clock and the rows under all other keys *)
+Lemma spec_write_frame st now o : is_write o = true -> parts_sorted st ->
+  parts_sorted (fst (fst (spec_step (st, now) o))) /\ snd (fst (spec_step (st, now) o)) = now /\
+  forall pk cc, ~ In (pk, cc) (write_keys o) -> raw_lookup (fst (fst (spec_step (st, now) o))) pk cc = raw_lookup st pk cc.
+Proof.
+  intros W S. destruct o as [pk0 cc0 v|items|pk0 cc0|pk0 ccs|pk0 a f|pk0 cc0 v ttl|pk0 cc0 old new ttl|pk0 cc0 e|pk0 cc0|pk0 a f|pk0 cc0|d];
+    try discriminate; cbn [spec_step write_keys fst snd].
+  - split; [apply put_sorted; exact S|split; [reflexivity|]]. intros pk cc Hn. unfold put. apply raw_set_other.
+    intros E. apply Hn. left. symmetry. exact E.
+  - split; [apply put_batch_sorted; exact S|split; [reflexivity|]]. intros pk cc Hn. apply raw_put_batch_other. exact Hn.
+  - pose proof (ins_sorted now st pk0 cc0 v ttl S) as S'. unfold insert_if_not_exists in *.
+    destruct (lookup now st pk0 cc0); cbn [fst snd] in *; (split; [exact S'|split; [reflexivity|]]); intros pk cc Hn; auto.
+    apply raw_set_other. intros E. apply Hn. left. symmetry. exact E.
+  - pose proof (cas_sorted lex_eqb now st pk0 cc0 old new ttl S) as S'. unfold compare_and_swap in *.
+    destruct (lookup now st pk0 cc0) as [r|]; [destruct (lex_eqb (rval r) old)|]; cbn [fst snd] in *;
+      (split; [exact S'|split; [reflexivity|]]); intros pk cc Hn; auto.
+    apply raw_set_other. intros E. apply Hn. left. symmetry. exact E.
+  - pose proof (cad_sorted lex_eqb now st pk0 cc0 e S) as S'. unfold compare_and_delete in *.
+    destruct (lookup now st pk0 cc0) as [r|]; [destruct (lex_eqb (rval r) e)|]; cbn [fst snd] in *;
+      (split; [exact S'|split; [reflexivity|]]); intros pk cc Hn; auto.
+    apply raw_del_other; [exact S|]. intros E. apply Hn. left. symmetry. exact E.
+Qed.
+
+(* ... and so does a write that failed, whatever part of it was applied *)
+Lemma failed_write_frame st now f o : faulty f o = true -> parts_sorted st ->
+  parts_sorted (fst (failed_under spec_step (st, now) f o)) /\ snd (failed_under spec_step (st, now) f o) = now /\
+  forall pk cc, ~ In (pk, cc) (write_keys o) -> raw_lookup (fst (failed_under spec_step (st, now) f o)) pk cc = raw_lookup st pk cc.
+Proof.
+  intros F S. destruct f as [| | |k]; cbn [faulty] in F; try discriminate; cbn [failed_under fst snd].
+  - auto.
+  - apply spec_write_frame; assumption.
+  - destruct o as [pk0 cc0 v|items|pk0 cc0|pk0 ccs|pk0 a f|pk0 cc0 v ttl|pk0 cc0 old new ttl|pk0 cc0 e|pk0 cc0|pk0 a f|pk0 cc0|d];
+      cbn [fst snd]; auto.
+    destruct (spec_write_frame st now (OPutBatch (firstn k items)) eq_refl S) as [H1 [H2 H3]].
+    split; [exact H1|split; [exact H2|]]. intros pk cc Hn. apply H3. cbn [write_keys] in *.
+    intros Hi. apply Hn. rewrite <- firstn_map in Hi. exact (incl_firstn k _ _ Hi).
+Qed.
+
+Lemma write_keys_op_keys o : is_write o = true -> write_keys o = op_keys o.
+Proof. destruct o; try discriminate; reflexivity. Qed.
+
+(* one step under a fault plan, failed writes marking their keys *)
+Theorem cache_fstep_transparent s fo : CI s -> op_domain (snd fo) ->
+  let r := cache_fstep spec_step true true true s fo in
+  CI (fst r) /\ c_under (fst r) = fst (under_fstep spec_step (c_under s) fo) /\
+  (dont_care (c_under s) (snd fo) = true \/ snd r = snd (under_fstep spec_step (c_under s) fo)).
+Proof.
+  intros HCI Hdom. destruct fo as [f o]. unfold cache_fstep, under_fstep. cbn [fst snd].
+  destruct (faulty f o) eqn:F.
+  - cbn [fst snd c_under]. split; [|split; [reflexivity|right; reflexivity]].
+    destruct s as [[st now] c cnow].
+    assert (Ecn : cnow = now) by (destruct HCI as [Hn _ _ _ _]; exact Hn). subst cnow.
+    cbn [c_under c_cache c_now].
+    destruct (failed_write_frame st now f o F (CI_sorted _ HCI)) as [S' [En Hfr]].
+    assert (W : is_write o = true) by (destruct f; cbn in F; try discriminate; exact F).
+    destruct (failed_under spec_step (st, now) f o) as [st' now'] eqn:Eu. cbn [fst snd] in *. subst now'.
+    apply (CI_mark_all st st' now c (write_keys o) HCI); auto.
+    rewrite (write_keys_op_keys o W). exact (proj1 Hdom).
+  - exact (cache_step_gen_transparent s o HCI Hdom).
+Qed.
+
+(* with one caching storage per app the second handle is the first *)
+Definition one_cache (s : xst (U:=sstate)) : cstate := mkC (x_under s) (x_c0 s) (x_now s).
+
+Lemma xstep_one_cache bm kg em s x :
+  one_cache (fst (xstep spec_step true bm kg em s x)) = fst (cache_fstep spec_step bm kg em (one_cache s) (xfop x)) /\
+  snd (xstep spec_step true bm kg em s x) = snd (cache_fstep spec_step bm kg em (one_cache s) (xfop x)).
+Proof.
+  unfold xstep, one_cache, xfop. rewrite andb_false_r.
+  destruct (cache_fstep spec_step bm kg em (mkC (x_under s) (x_c0 s) (x_now s)) (snd (fst x), snd x)) as [[u c n] out].
+  cbn. auto.
+Qed.
+
+Fixpoint transparent_xrun (memo bm kg em : bool) (s : xst (U:=sstate)) (xs : list (bool * fault * sop)) : Prop :=
+  match xs with
+  | [] => True
+  | x :: r => (dont_care (x_under s) (snd x) = true \/
+               snd (xstep spec_step memo bm kg em s x) = snd (under_fstep spec_step (x_under s) (xfop x)))
+              /\ transparent_xrun memo bm kg em (fst (xstep spec_step memo bm kg em s x)) r
+  end.
+
+Theorem cache_transparent_x_proved xs : forall s, CI (one_cache s) -> Forall (fun x => op_domain (snd x)) xs ->
+  transparent_xrun true true true true s xs.
+Proof.
+  induction xs as [|x xs IH]; intros s HCI HF; cbn [transparent_xrun]; auto.
+  inversion HF as [|? ? Ho Hr]; subst.
+  destruct (xstep_one_cache true true true s x) as [E1 E2].
+  destruct (cache_fstep_transparent (one_cache s) (xfop x) HCI Ho) as [H1 [H2 H3]].
+  split.
+  - rewrite E2. exact H3.
+  - apply IH; [|exact Hr]. rewrite E1. exact H1.
+Qed.
+
 End SeqProof.
